@@ -22,6 +22,12 @@ differ when LGOODs were still owed when the link went down) and does not count a
 write coincides with the reset cycle (it is dropped with the other buffered headers).  Under the environment of C37 (link
 stays enabled, no USB reset) the two are the same machine.
 
+`Config.abort = true` is the second C38 repair: the `LinkCommandGenerator` sits in a
+`ResetInserter({"ss": link_reset})`, so a link command still in flight when the link goes down (or a USB
+reset arrives) is dropped: the generator's FSM and latches take their reset values at that clock edge (its
+outputs in the cycle of `link_reset` itself are unchanged).  `abort = false` is the generator without
+abort, which completes the stale command whenever `source.ready` allows — also after re-entry.
+
 The running CRC-16 register of `HeaderPacketCRC` is cleared in every WAIT_FOR_HPSTART cycle and
 advanced exactly when DW0, DW1, DW2 are latched, so in CHECK_PACKET its output is the CRC-16 of the
 three latched words; the model computes that value from the latched words with the reference
@@ -113,6 +119,7 @@ end RawRx
 structure Config where
   fix        : Bool            -- repaired reset-on-disable handling (C38)
   downstream : Bool := false   -- `downstream_facing`: keepalive is LDN instead of LUP
+  abort      : Bool := false   -- the link command generator is reset by `link_reset` (second C38 repair)
 deriving Repr
 
 inductive Fsm | dispatch | sendAcks | issueCredits | sendLbad | sendLrty | sendKeepalive | sendLxu
@@ -292,9 +299,9 @@ def step (c : Config) (s : State) (i : In) : State × Out :=
       lastEnable := i.enable
       ignore := if rst then false else if i.retryReceived then false else if badEv s then true else s.ignore
       fsm := fsmNext c s i
-      gen := genNext s i
-      gCmd := if latch then genCmd c s else s.gCmd
-      gSub := if latch then genSub s % 16 else s.gSub }
+      gen := if c.abort && resetCond s i then .idle else genNext s i
+      gCmd := if c.abort && resetCond s i then 0 else if latch then genCmd c s else s.gCmd
+      gSub := if c.abort && resetCond s i then 0 else if latch then genSub s % 16 else s.gSub }
   let o : Out :=
     { srcValid := s.gen != .idle
       srcData := match s.gen with | .idle => 0 | .header => lcStart | .command => lcWord s.gCmd s.gSub
